@@ -15,7 +15,8 @@ import (
 
 // Thresholds returns, in satoshi, the four dust thresholds of a world:
 // [offered by A on A's commitment, offered by A on B's commitment,
-//  offered by B on B's commitment, offered by B on A's commitment].
+//
+//	offered by B on B's commitment, offered by B on A's commitment].
 func Thresholds(typ string, feePerKw, dustA, dustB int64) [4]int64 {
 	ct := ChanTypes[typ]
 	var to, su int64
@@ -194,16 +195,16 @@ func (a *Agg) Coverage(rule string) map[string]any {
 		"per_space":                     a.PerSpace,
 		"determinism_recheck":           a.Recheck,
 		"oracle_counts": map[string]any{
-			"signatures_verified_by_peer": a.Stats.SigsVerified.Load(),
-			"commitments_checked":         a.Stats.CommitsChecked.Load(),
-			"mirror_checks_at_quiescence": a.Stats.MirrorChecks.Load(),
-			"reloads":                     a.Stats.Reloads.Load(),
-			"retransmitted_messages":      a.Stats.Retransmissions.Load(),
-			"revocations_checked":         a.Stats.RevokesChecked.Load(),
-			"constraint_noops":            a.Stats.ConstraintNoops.Load(),
-			"crash_mid_step":              a.Stats.CrashMidStep.Load(),
-			"max_durable_writes_per_step": a.Stats.MaxWrites.Load(),
-			"durable_writes_table":        WritesTable(),
+			"signatures_verified_by_peer":  a.Stats.SigsVerified.Load(),
+			"commitments_checked":          a.Stats.CommitsChecked.Load(),
+			"mirror_checks_at_quiescence":  a.Stats.MirrorChecks.Load(),
+			"reloads":                      a.Stats.Reloads.Load(),
+			"retransmitted_messages":       a.Stats.Retransmissions.Load(),
+			"revocations_checked":          a.Stats.RevokesChecked.Load(),
+			"constraint_noops":             a.Stats.ConstraintNoops.Load(),
+			"crash_mid_step":               a.Stats.CrashMidStep.Load(),
+			"max_durable_writes_per_step":  a.Stats.MaxWrites.Load(),
+			"durable_writes_table":         WritesTable(),
 			"crash_points_discovered_late": WritesTableLate.Load(),
 		},
 	}
